@@ -135,7 +135,7 @@ def run_reader_case(ctx, case, tmpdir):
 
 def constructor_cases(ctx):
     data = bytes(40)
-    for rate in (8, 10, 100, 16000, 48000, 44100):
+    for rate in (8, 10, 100, 16000, 48000, 44100, 11025, 96000):
         for block_dur in (1 / rate, 2 / rate, 0.5 / rate, 0.99 / rate, 1.5 / rate, 0.1, 0.29, 0.57, 0.009, 0.35, 1001 / 16000, 0.9999999999 / rate,
                           0, 0.0, -1 / rate, -2.5 / rate, -0.1, -0.5 / rate):
             import math
